@@ -779,6 +779,7 @@ func concat(a ...MalType) (MalType, error) {
 	if e != nil {
 		return nil, e
 	}
+	slc1 = append([]MalType{}, slc1...)
 	for i := 1; i < len(a); i += 1 {
 		slc2, e := GetSlice(a[i])
 		if e != nil {
